@@ -1,0 +1,16 @@
+//go:build verif
+
+package blobpacked
+
+import "perkeep.org/pkg/blobserver"
+
+// VerifSetMaxZipBlobSize forces the maximum size of the zip blobs sto
+// produces, so that multi-zip packs can be explored with small files.
+// It reports whether sto is a blobpacked storage.
+func VerifSetMaxZipBlobSize(sto blobserver.Storage, n int) bool {
+	s, ok := sto.(*storage)
+	if ok {
+		s.forceMaxZipBlobSize = n
+	}
+	return ok
+}
